@@ -219,6 +219,16 @@ def minimise(mod, case, violation, budget_s=40.0, log=None):
     rule = violation['rule']
     t0 = time.time()
     tried = 0
+    if hasattr(mod, 'pin'):
+        cand = mod.pin(case, violation)
+        if cand is not None:
+            try:
+                same = [v for v in mod.run_case(cand).get('violations', ())
+                        if v['rule'] == rule]
+            except BaseException:
+                same = []
+            if same:
+                case, violation = cand, same[0]
     changed = True
     while changed and time.time() - t0 < budget_s:
         changed = False
